@@ -14,7 +14,9 @@ from .. import tlc, graph, common, servers
 NONE = "none"
 HOSTS = {"named": "example.com", "ipv4": "127.0.0.1", "ipv6": "[::1]", "sub": "a.b-c.example"}
 USERS = {"u1": "user", "u2": "us%40er", "u3": "a%3Ab"}
-PWS = {"pw1": "s3cret-TOKEN-XYZ", "pw2": "p%40ss%3Aw", "pw3": "x", "pw4": "s3cr@t:pw"}
+PWS = {"pw1": "s3cret-TOKEN-XYZ", "pw2": "p%40ss%3Aw", "pw3": "x", "pw4": "s3cr@t:pw", "pw5": "S3cr/T0p", "pw6": "q?x#y[z]"}
+# (pw5, pw6: characters that end the authority or the path when written raw - a URL can hold them only percent-encoded, and
+#  that is how they may come back)
 PATHS = {"p_empty": "", "p_a": "/a", "p_ae": "/a/é", "p_slash": "/"}
 QUERIES = {NONE: "", "q1": "a=1&b=2", "q2": "x=%C3%A9&x=2", "q3": "q=café&z=中"}
 FRAGS = {NONE: "", "f1": "frag"}
@@ -69,9 +71,12 @@ def edit_chains(ctx):
     wd = tlc.workdir_for("c18trace")
     rnd = random.Random(500 + ctx.seed)
     n_tr, n_ed = (300, 25) if ctx.tier == "quick" else (3000, 60)
-    pal = {"scheme": {x: x for x in ("http", "https", "ws", "wss")}, "user": dict(USERS, none=None), "password": dict(PWS, none=None), "host": HOSTS,
+    pal = {"scheme": {x: x for x in ("http", "https", "ws", "wss")}, "user": dict(USERS, none=None, u4="al:ice"), "password": dict(PWS, none=None), "host": HOSTS,
            "port": dict({x: int(x) for x in PORTS}, none=None), "path": T_PATHS, "query": QUERIES, "fragment": FRAGS}
     inv = {k: {(str(v) if v is not None else NONE): t for t, v in m.items()} for k, m in pal.items()}
+    esc = lambda t, extra="": "".join("%%%02X" % ord(c) if c in "/?#[]" + extra else c for c in t)  # noqa
+    inv["password"].update({esc(v): t for t, v in PWS.items()})
+    inv["user"].update({esc(v, ":"): t for t, v in pal["user"].items() if v})
     inv["path"] = {urllib.parse.quote(v, safe="/%"): t for t, v in T_PATHS.items()}
     inv["path"].update({v: t for t, v in T_PATHS.items()})
 
@@ -83,7 +88,7 @@ def edit_chains(ctx):
     for _ in range(n_tr):
         base = {"scheme": rnd.choice(["http", "https", "ws", "wss"]), "user": rnd.choice(list(USERS) + [NONE, NONE]), "host": rnd.choice(list(HOSTS)),
                 "port": rnd.choice(PORTS + [NONE, NONE]), "path": rnd.choice(list(T_PATHS)), "query": rnd.choice(list(QUERIES)), "fragment": rnd.choice(list(FRAGS))}
-        base["password"] = rnd.choice(list(PWS) + [NONE]) if base["user"] != NONE else NONE
+        base["password"] = rnd.choice(["pw1", "pw2", "pw3", "pw4", NONE]) if base["user"] != NONE else NONE
         text = to_string({"scheme": base["scheme"], "user": USERS.get(base["user"], NONE), "password": PWS.get(base["password"], NONE), "host": HOSTS[base["host"]],
                           "port": base["port"], "path": T_PATHS[base["path"]], "query": QUERIES[base["query"]], "fragment": FRAGS[base["fragment"]]})
         u = URL(text)
@@ -290,10 +295,11 @@ def run(ctx):
                 ctx.violation(case, want, got, "replace(hostname=...): the host does not have the new value / other components changed")
             ctx.nontriv(("hostname", text, h))
     # query-parameter helpers act as set / replace / remove on the multi-value query
-    qs = ["a=1&a=2&b=3", "b=%C3%A9", "", "a=1&a=2&a=3&b=4", "a=1&b=2&a=3&c=4&a=5", "a=0&a=1&a=2", "b=1&a=2&a=3&a=4&a=5&c=6", "a=&a=&a=&z=1"]
+    qs = ["a=1&a=2&b=3", "b=%C3%A9", "", "a=1&a=2&a=3&b=4", "a=1&b=2&a=3&c=4&a=5", "a=0&a=1&a=2", "b=1&a=2&a=3&a=4&a=5&c=6", "a=&a=&a=&z=1",
+          "q=caf%E9&page=1&page=2", "b=%FF%FE&a=1", "k%E9y=v&a=1&a=2"]      # (escapes that are not UTF-8: bytes of another charset)
     for text in ["http://h/p?" + q for q in qs] + ["https://u:pw@[::1]:8443/x?b=%C3%A9&a=1&a=2&a=3", "ws://h/"]:
         u = URL(text)
-        pairs = urllib.parse.parse_qsl(u.query, keep_blank_values=True)
+        pairs = urllib.parse.parse_qsl(u.query, keep_blank_values=True, errors="surrogateescape")
         for kw in ({"a": "9"}, {"c": "new", "b": "7"}, {"z": 5}):
             ctx.count()
             try:
@@ -301,7 +307,7 @@ def run(ctx):
             except BaseException as e:  # noqa
                 ctx.violation({"url": text, "helper_args": kw}, "a URL", type(e).__name__ + ": " + str(e), "a query helper raised %s" % type(e).__name__)
                 continue
-            inc = urllib.parse.parse_qsl(u.include_query_params(**kw).query, keep_blank_values=True)
+            inc = urllib.parse.parse_qsl(u.include_query_params(**kw).query, keep_blank_values=True, errors="surrogateescape")
             exp_inc = [(k, v) for k, v in pairs if k not in kw]
             keep = []
             seen = set()
@@ -315,10 +321,10 @@ def run(ctx):
             keep += [(k, str(v)) for k, v in kw.items() if k not in seen]
             if sorted(inc) != sorted(keep) or [p for p in inc if p[0] not in kw] != exp_inc:
                 ctx.violation({"url": text, "include_query_params": kw}, keep, inc, "include_query_params is not 'set' on the multi-value query")
-            rep = urllib.parse.parse_qsl(u.replace_query_params(**kw).query, keep_blank_values=True)
+            rep = urllib.parse.parse_qsl(u.replace_query_params(**kw).query, keep_blank_values=True, errors="surrogateescape")
             if rep != [(k, str(v)) for k, v in kw.items()]:
                 ctx.violation({"url": text, "replace_query_params": kw}, kw, rep, "replace_query_params does not replace the query")
-            rem = urllib.parse.parse_qsl(u.remove_query_params(*kw).query, keep_blank_values=True)
+            rem = urllib.parse.parse_qsl(u.remove_query_params(*kw).query, keep_blank_values=True, errors="surrogateescape")
             if rem != [(k, v) for k, v in pairs if k not in kw]:
                 ctx.violation({"url": text, "remove_query_params": list(kw)}, "pairs without those keys", rem, "remove_query_params does not remove exactly those keys")
             for r2 in (u.include_query_params(**kw), u.replace_query_params(**kw), u.remove_query_params(*kw)):
